@@ -277,17 +277,14 @@ def c02Logon : InMsg :=
           == ["saved 1 A", "wire 1 A", "saved 2 D", "saved 3 D", "wire 2 D", "wire 3 D"]
 end
 
-/-- what the sequential layer does NOT give (false of the model, hence of the code): per-epoch wire order and
-    store-retrievability at the moment of the write when a Logon-triggered reset (`handleLogon`: ResetOnLogon or a
-    received ResetSeqNumFlag) happens while first-time messages are still queued — that reset does not drop the queue. -/
-def C02_seq_store_has_message_at_wire_full : Prop :=
-  ∀ (cfg : Sess.Cfg) (s0 t0 : Int) (evs : List Sess.Ev) (e : Sess.Ev), cfg.persist = true →
-    ∀ m, Sess.Obs.wire m ∈ (Sess.step (C02seq.runEvents (Sess.initSess cfg s0 t0) evs) e).2.1 →
-      Sess.C02.firstTime m = true → ∃ n, (Sess.step (C02seq.runEvents (Sess.initSess cfg s0 t0) evs) e).1.store.lookup m.seq = some n
-
-/-- witness (interpreter-checked; String functions do not reduce in the kernel): initiator, one application message
-    queued while the Logon is outstanding, the peer's Logon carries ResetSeqNumFlag=Y: the store is reset, the queued
-    message 2 is flushed although the store no longer holds it, and number 2 is handed out again -/
+/-- The Logon-triggered reset (`handleLogon`: ResetOnLogon or a received ResetSeqNumFlag; `Connect`: initiator with
+    ResetOnLogon).  On the unchanged tree it called `store.Reset()` directly: outside `sendMutex` (an application
+    goroutine between reading the number and saving got a pre-reset number saved after the reset — reproduced by the
+    stress harness, signature C02/consecutive) and without dropping the queue (sequentially: initiator, a message
+    queued while the Logon is outstanding, the peer's Logon carries 141=Y ⇒ the old model trace was
+    `saved 1 A, wire 1 A, saved 2 D, reset, wire 2 D, saved 1 D, saved 2 D, wire 1 D, wire 2 D`: message 2 written
+    although the store no longer held it, and number 2 handed out twice).  After the `fix:` both sites go through
+    `dropAndReset` like every other reset; the model follows, and the same history now gives: -/
 def c02ResetLogon : Sess.InMsg :=
   { f := [(8, "FIX.4.2"), (35, "A"), (49, "TGT"), (56, "SND"), (34, "1"), (52, "@0"), (98, "0"), (108, "30"), (141, "Y")] }
 #guard ((C02seq.traceOf (Sess.initSess { initiator := true } 1 1)
@@ -295,7 +292,16 @@ def c02ResetLogon : Sess.InMsg :=
            .send (Sess.mkOut "D" []), .send (Sess.mkOut "D" []), .flush]).filterMap (fun o => match o with
               | .saved n k _ => some (s!"saved {n} {k}") | .wire m => some (s!"wire {m.seq} {m.kind}")
               | .reset => some "reset" | _ => none))
-        == ["saved 1 A", "wire 1 A", "saved 2 D", "reset", "wire 2 D", "saved 1 D", "saved 2 D", "wire 1 D", "wire 2 D"]
+        == ["saved 1 A", "wire 1 A", "saved 2 D", "reset", "saved 1 D", "saved 2 D", "wire 1 D", "wire 2 D"]
+
+/-- not proved for the sequential model (the concurrent model proves its per-epoch version, clauses `wire_order` and
+    `persist_before_wire`): at the moment a first-time message is written the store still holds a message under its
+    number.  It needs the extra invariant "every queued first-time number is below the store's next number and bound
+    in `store.msgs`", which the reset paths now maintain (the queue is dropped first); left as a statement. -/
+def C02_seq_store_has_message_at_wire_full : Prop :=
+  ∀ (cfg : Sess.Cfg) (s0 t0 : Int) (evs : List Sess.Ev) (e : Sess.Ev), cfg.persist = true →
+    ∀ m, Sess.Obs.wire m ∈ (Sess.step (C02seq.runEvents (Sess.initSess cfg s0 t0) evs) e).2.1 →
+      Sess.C02.firstTime m = true → ∃ n, (Sess.step (C02seq.runEvents (Sess.initSess cfg s0 t0) evs) e).1.store.lookup m.seq = some n
 
 /-!
 Clause checklist (properties.jsonl C02 → theorems)
